@@ -893,13 +893,16 @@ class CmpiOp(ComparisonOperation):
         operand1 = parser.parse_unresolved_operand()
         parser.parse_punctuation(",")
         operand2 = parser.parse_unresolved_operand()
+        attrs = parser.parse_optional_attr_dict()
         parser.parse_punctuation(":")
         input_type = parser.parse_type()
         (operand1, operand2) = parser.resolve_operands(
             [operand1, operand2], 2 * [input_type], parser.pos
         )
 
-        return cls(operand1, operand2, arg)
+        op = cls(operand1, operand2, arg)
+        op.attributes |= attrs
+        return op
 
     def print(self, printer: Printer):
         printer.print_string(" ")
@@ -909,6 +912,7 @@ class CmpiOp(ComparisonOperation):
         printer.print_operand(self.lhs)
         printer.print_string(", ")
         printer.print_operand(self.rhs)
+        printer.print_op_attributes(self.attributes)
         printer.print_string(" : ")
         printer.print_attribute(self.lhs.type)
 
@@ -1001,13 +1005,16 @@ class CmpfOp(ComparisonOperation):
             fastmath = FastMathFlagsAttr(FastMathFlagsAttr.parse_parameter(parser))
         else:
             fastmath = FastMathFlagsAttr("none")
+        attrs = parser.parse_optional_attr_dict()
         parser.parse_punctuation(":")
         input_type = parser.parse_type()
         (operand1, operand2) = parser.resolve_operands(
             [operand1, operand2], 2 * [input_type], parser.pos
         )
 
-        return cls(operand1, operand2, arg, fastmath)
+        op = cls(operand1, operand2, arg, fastmath)
+        op.attributes |= attrs
+        return op
 
     def print(self, printer: Printer):
         printer.print_string(" ")
@@ -1019,6 +1026,7 @@ class CmpfOp(ComparisonOperation):
         if self.fastmath != FastMathFlagsAttr("none"):
             printer.print_string(" fastmath")
             self.fastmath.print_parameter(printer)
+        printer.print_op_attributes(self.attributes)
         printer.print_string(" : ")
         printer.print_attribute(self.lhs.type)
 
